@@ -4,6 +4,7 @@ to N behaviour-preserving variants (variants/) that touch the same file, apply v
 copy of /repo; where both apply and the tree builds, all checks are run: the breakage must still be DETECTED.
 Writes tools/combo_last.json and prints the misses."""
 import sys, os, re, glob, json, subprocess, tempfile, shutil, random
+subprocess.run(["/verif/tools/trimcache.sh"])  # keep the Go build cache bounded: every scratch copy adds entries
 from concurrent.futures import ThreadPoolExecutor
 per = 2
 if "--per" in sys.argv:
